@@ -108,3 +108,29 @@ def c13(ctx):
                     trace_module="Trace_C13", sigfn=V.default_sig,
                     assumptions=["TLC/SANY and the JVM", "CommunityModules Bitwise (^^)", "Crc.tla: serial definition = table form (MC_C13) and catalogue check value 0x0376E6E7",
                                  "sections emitted by the library (filtered PMT, splice_info_section) are checked for residue 0 in C14 and C09"])
+
+
+# ---------------------------------------------------------------- C19
+
+def c19_sig(e, reason):
+    return V.default_sig(e, reason)
+
+
+@prop("C19", "Trace_C19", c19_sig)
+def c19(ctx):
+    thorough = ctx.tier == "thorough"
+    V.mc(ctx, "MC_C19", cfg="MC_C19_thorough.cfg" if thorough else "MC_C19.cfg")
+    tab = os.path.join(ctx.dir, "c19.tab.ndjson")
+    V.tlc_emit(ctx, "Gen_C19", tab)
+    V.table_compare(ctx, tab)
+    ctx.exhaustive = True
+    summ = V.gen_traces(ctx, shards=8)
+    V.validate(ctx, "Trace_C19", summ, c19_sig)
+    return V.finish(ctx, "model_checking",
+                    rule="B1 (exhaustive over the abstraction): TLC evaluates SegRules!CanCloseBy on all 256x256 type pairs x (event-id-equal, PTS-equal, segnum=segexp) "
+                         "= 524 288 rows plus IsIn/IsOut for 256 types; each row is checked on real descriptors built through the public API with all other fields randomised. "
+                         "B3: triples (a,b,c) of real descriptors (equal-up-to-ignored-fields, one-field-different, random) with every Equal/CanClose result validated by TLC "
+                         "against SegRules and against the symmetry/transitivity/congruence laws. class = (type of a, eq(a,b), cc(a,c), cc(c,a))",
+                    trace_module="Trace_C19", sigfn=c19_sig,
+                    assumptions=["TLC/SANY and the JVM", "SegRules!RuleTable is the library's closing-rule table at the pinned commit (transcribed once)",
+                                 "descriptor field values are logged from the real getters (their decoding is C08/C09's subject)"])
